@@ -9,7 +9,7 @@ UNITS = {
     "v5acks": dict(verify=["v5acks.vc"], trusted=["common.vc", "topic.vc", "v5types.vc", "v5props.vc", "v5pdec.vc"], spec=[], spec_import=["wire.rs", "wire5.rs", "props5.rs"]),
     "v5body": dict(verify=["v5codes.vc", "v5.vc"], trusted=["common.vc", "topic.vc", "v5types.vc", "v5props.vc", "v5pdec.vc"], spec=[], spec_import=["wire.rs", "wire5.rs", "props5.rs"]),
     "v5pkt": dict(verify=["v5pkt.vc"], trusted=["common.vc", "topic.vc", "v5types.vc", "v5props.vc", "v5pdec.vc", "v5acks.vc", "v5codes.vc", "v5.vc"], spec=[], spec_import=["wire.rs", "wire5.rs", "props5.rs"]),
-    "lem5": dict(verify=[], trusted=["common.vc", "topic.vc", "v5types.vc", "v5props.vc", "v5pdec.vc", "v5acks.vc"], spec=["lemmas5.rs"], spec_import=["wire.rs", "wire5.rs", "props5.rs"]),
+    "lem5": dict(verify=[], trusted=["common.vc", "topic.vc", "v5types.vc", "v5props.vc", "v5pdec.vc", "v5acks.vc", "v5codes.vc", "v5.vc", "v5pkt.vc"], spec=["lemmas5.rs", "lemmas5b.rs"], spec_import=["wire.rs", "wire5.rs", "props5.rs"]),
     "lem3": dict(verify=[], trusted=["common.vc", "topic.vc", "v3.vc"], spec=["lemmas3.rs"], spec_import=["wire.rs"]),
     "v3": dict(verify=["v3.vc"], trusted=["common.vc", "topic.vc"], spec=[], spec_import=["wire.rs"]),
 }
